@@ -43,6 +43,24 @@ def parseTx (s : String) : Option Tx :=
     | _ => none
   | _ => none
 
+def parseRawKey (s : String) : Option SKey :=
+  if s = "meta" then some .chainMeta
+  else match s.toList with
+    | 'd' :: rest => (String.ofList rest).toNat?.map SKey.data
+    | _ => match s.splitOn ":" with
+      | ["block", h] => h.toNat?.map SKey.block
+      | _ => none
+
+def parseRawTx : List String → Option RawTx
+  | ["put", k, v] => match parseRawKey k, v.toNat? with
+    | some k, some v => some (.put k v)
+    | _, _ => none
+  | ["del", k] => (parseRawKey k).map RawTx.del
+  | ["cas", k, e, v] => match parseRawKey k, v.toNat? with
+    | some k, some v => if e = "-" then some (.cas k none v) else e.toNat?.map fun e => .cas k (some e) v
+    | _, _ => none
+  | _ => none
+
 def parseTxs (s : String) : Option (List Tx) :=
   if s = "-" then some [] else (s.splitOn ",").mapM parseTx
 
@@ -205,6 +223,13 @@ def chainStep (d : Drv) (line : String) : Drv × String :=
         ({ d with node := r.1 }, if r.2 then "ok" else "err not_active")
       | none => bad
     | _, _, _ => bad
+  -- `add_operation` with the key as the client names it: `d<k>` (a data key), `meta` (`chain:meta`),
+  -- `block:<h>` (`chain:block:<h>`); `radd <w> put <key> <v>` / `del <key>` / `cas <key> <e or -> <v>`
+  | "radd" :: w :: rest => match w.toNat?, parseRawTx rest with
+    | some w, some t =>
+      let r := addOperation d.node w t
+      ({ d with node := r.1 }, match r.2 with | .ok => "ok" | .notActive => "err not_active" | .reserved => "err reserved")
+    | _, _ => bad
   -- restart: new `TensorChain` object over the same store + `initialize()`
   | ["reopen", ts] => match ts.toNat? with
     | some ts =>
